@@ -539,7 +539,10 @@ def check_property(prop, tier, only=None, jobs=None, seed=0, skip_smt=False, ski
                     new_fails.append(c)
             if incon:
                 descs = sorted(set(c.get("description", "") for c in incon))
-                if any(c.get("status") == "Error" for c in incon) or len(incon) > 50:
+                unwound = [c for c in incon if "unwinding assertion" in c.get("description", "") and c.get("status") == "Failure"]
+                if unwound:
+                    why = "unwinding bound too small: %s (all other checks are undetermined)" % "; ".join(sorted(set(c.get("description", "") for c in unwound))[:3])
+                elif any(c.get("status") == "Error" for c in incon) or len(incon) > 50:
                     why = "CBMC solver error / out of memory (%d checks undetermined; memory cap %d MB)" % (len(incon), tier_cfg["mem_kb"] // 1000)
                 else:
                     why = "bound too small or unsupported construct: " + "; ".join(descs)[:300]
